@@ -73,6 +73,7 @@ pub struct Report {
     pub unsupported_msgs: Vec<String>,
     pub diverged_runs: u64,
     pub unrealised_flips: u64,
+    pub ieee_boundary_models: u64,
     pub pending_work: u64,
     pub runs: u64,
     pub queries: u64,
@@ -210,6 +211,12 @@ pub fn explore(cfg: &Config, sym: &dyn Fn(), native: Option<&dyn Fn()>) -> Repor
     let mut rep = Report { harness: cfg.name.clone(), solver: cfg.solver.clone(), query_timeout_ms: cfg.query_timeout_ms, ..Default::default() };
     let mut solver = Solver::new(&cfg.solver, cfg.query_timeout_ms);
     let mut solver2 = cfg.solver2.as_ref().map(|b| Solver::new(b, cfg.query_timeout_ms));
+    // a single query never outlives the job's budget by more than a couple of seconds
+    let deadline = std::time::Instant::now() + std::time::Duration::from_secs_f64(cfg.max_secs.max(1.0));
+    solver.deadline = Some(deadline);
+    if let Some(s2) = solver2.as_mut() {
+        s2.deadline = Some(deadline + std::time::Duration::from_secs(10));
+    }
     let mut work: std::collections::VecDeque<Work> = if cfg.initial_work.is_empty() { vec![Work { inputs: cfg.first_inputs.clone(), bound: 0, prefix_hash: 0 }].into() } else { cfg.initial_work.clone().into() };
     let mut frontier_reached = false;
     let mut rng_state: u64 = cfg.random_pop.unwrap_or(0) ^ 0x9E37_79B9_7F4A_7C15;
@@ -297,8 +304,9 @@ pub fn explore(cfg: &Config, sym: &dyn Fn(), native: Option<&dyn Fn()>) -> Repor
             let sig = mix(h, match &out.abort { None => 1, Some(Abort::DivByZero) => 2, Some(Abort::SqrtNegative) => 3, Some(_) => 4 });
             is_new_path = seen_paths.insert(sig);
         }
-        if bound == 0 && w.bound > 0 && !is_new_path {
-            // the path the solver asked for was not realised and nothing new was seen instead
+        if bound == 0 && w.bound > 0 {
+            // the path the solver asked for was not realised (whether or not this run found some other new path,
+            // the requested region stays unexplored): the exploration is not exhaustive
             rep.unrealised_flips += 1;
         }
         if assume_failed {
@@ -334,7 +342,26 @@ pub fn explore(cfg: &Config, sym: &dyn Fn(), native: Option<&dyn Fn()>) -> Repor
                 if seen_flips.insert(key) {
                     solver.push();
                     solver.send(&format!("(assert {})\n", if ev.outcome { format!("(not {})", name) } else { name.clone() }));
-                    let ans = solver.check(nvars);
+                    let mut ans = solver.check(nvars);
+                    // The solver reasons in exact arithmetic; with rounded terms on the path an exact model can sit
+                    // on the IEEE side of a boundary (simplex returns vertices).  Evaluate the recorded decisions on
+                    // the model with IEEE operations; if it does not follow prefix + flipped decision, block it
+                    // and ask for another model (a few times).
+                    let mut tries = 0;
+                    while let Answer::Sat(m) = &ans {
+                        let vals = a.eval_all(m);
+                        let follows = (0..j).all(|k| a.eval_bool(a.trace[k].cond, &vals) == a.trace[k].outcome) && a.eval_bool(ev.cond, &vals) != ev.outcome;
+                        if follows || tries >= 4 {
+                            if !follows {
+                                rep.ieee_boundary_models += 1;
+                            }
+                            break;
+                        }
+                        tries += 1;
+                        let block: Vec<String> = m.iter().enumerate().map(|(i, v)| format!("(not (= x{} {}))", i, crate::solver::ilit(*v))).collect();
+                        solver.send(&format!("(assert (or false {}))\n", block.join(" ")));
+                        ans = solver.check(nvars);
+                    }
                     if dump_flips {
                         flip_log.push_str(&format!(" {}:{}", j, match &ans { Answer::Sat(_) => "sat", Answer::Unsat => "unsat", Answer::Unknown(_) => "unk" }));
                     }
@@ -614,7 +641,7 @@ impl Report {
     pub fn merge(&mut self, o: &Report) {
         self.exhaustive &= o.exhaustive;
         macro_rules! add { ($($f:ident),*) => { $( self.$f += o.$f; )* } }
-        add!(second_opinions, second_opinion_skipped, unrealised_flips, paths, paths_with_obligations, assume_rejected_runs, div0_paths, sqrt_neg_paths, unsupported_paths, diverged_runs, pending_work, runs, queries, sat, unsat, unknown, undecided_flips, undecided_obligations, obligations_checked, obligations_by_solver, obligations_on_path, solver_time_s, concretised, inexact, exact_terms, rounded_terms, uf_terms, rounded_compares, uf_compares, signed_zero, witness_validated, witness_mismatch, shards);
+        add!(ieee_boundary_models, second_opinions, second_opinion_skipped, unrealised_flips, paths, paths_with_obligations, assume_rejected_runs, div0_paths, sqrt_neg_paths, unsupported_paths, diverged_runs, pending_work, runs, queries, sat, unsat, unknown, undecided_flips, undecided_obligations, obligations_checked, obligations_by_solver, obligations_on_path, solver_time_s, concretised, inexact, exact_terms, rounded_terms, uf_terms, rounded_compares, uf_compares, signed_zero, witness_validated, witness_mismatch, shards);
         self.wall_s = self.wall_s.max(o.wall_s);
         self.max_trace_len = self.max_trace_len.max(o.max_trace_len);
         self.n_vars = self.n_vars.max(o.n_vars);
